@@ -463,11 +463,24 @@ func (g *c11gen) chain(depth int) string {
 
 func (g *c11gen) expr(depth int) string {
 	t := g.t
-	k := rapid.IntRange(0, 11).Draw(t, "k")
+	k := rapid.IntRange(0, 13).Draw(t, "k")
 	if depth <= 0 {
 		k = k % 3
 	}
 	switch k {
+	case 12, 13:
+		// nested logical operators (the checker narrows types through && / || / !)
+		g.labels["embed=nested-logical"] = true
+		op1 := rapid.SampledFrom([]string{"&&", "||"}).Draw(t, "op1")
+		op2 := rapid.SampledFrom([]string{"&&", "||"}).Draw(t, "op2")
+		inner := "(" + g.expr(depth-1) + " " + op1 + " " + g.expr(depth-1) + ")"
+		for i := rapid.IntRange(0, 2).Draw(t, "nots"); i > 0; i-- {
+			inner = "!" + inner
+		}
+		if rapid.Bool().Draw(t, "left") {
+			return inner + " " + op2 + " " + g.expr(depth-1)
+		}
+		return g.expr(depth-1) + " " + op2 + " " + inner
 	case 0, 1, 10:
 		return g.chain(depth)
 	case 2:
@@ -504,7 +517,7 @@ func (g *c11gen) expr(depth int) string {
 
 func TestC11(t *testing.T) {
 	hx.Main(t, "C11", func(r *hx.Run) {
-		r.Rule = "expressions built from the documented untrusted paths and their trusted relatives (sibling, proper prefix, extension, other context), every segment spelled as .name / ['name'] in any letter case, array segments as [0] / [expr] / .*, object segments optionally as .* filter, embedded in operators, parentheses, non-sanitising and sanitising calls, index positions and operands of other chains, 1-4 chains per expression; script positions (run, run block, github-script script) and non-script positions (env, with of other actions, name, if). Oracle: stateless top-down taint model over the reference AST; reported paths and columns must equal the model's. Non-trivial = the model expects >= 1 report and the expression has >= 2 chains or a non-dot spelling or an embedding; distinct = expression text (+ position)."
+		r.Rule = "expressions built from the documented untrusted paths and their trusted relatives (sibling, proper prefix, extension, other context), every segment spelled as .name / ['name'] in any letter case, array segments as [0] / [expr] / .*, object segments optionally as .* filter, embedded in operators (incl. nested and negated && / || groups on either side), parentheses, non-sanitising and sanitising calls, index positions and operands of other chains, 1-4 chains per expression; script positions (run, run block, github-script script) and non-script positions (env, with of other actions, name, if). Oracle: stateless top-down taint model over the reference AST; reported paths and columns must equal the model's. Non-trivial = the model expects >= 1 report and the expression has >= 2 chains or a non-dot spelling or an embedding; distinct = expression text (+ position)."
 		r.Assumptions = []string{"path list transcribed from docs/checks.md plus github.event.discussion.{title,body} (GitHub security hardening guide)", "object filter .* is a wildcard for exactly one segment; the first index after a filter is path-neutral", "whole-object reads (proper prefixes) are not reports"}
 		covered := map[string]bool{}
 		r.Check(t, "sema", hx.N(30000, 600000), func(rt *rapid.T) {
